@@ -42,7 +42,7 @@ type Op struct {
 	Via     string `json:"via,omitempty"`
 	LoseMod int    `json:"lose_mod,omitempty"`
 	LoseRem int    `json:"lose_rem,omitempty"`
-	// await: the script goes on when observer Obs reached Event (start first sync pause), or after a bounded wait
+	// await: the script goes on when observer Obs reached Event (start dialed first sync pause tick), or after a bounded wait
 	Obs   int    `json:"obs,omitempty"`
 	Event string `json:"event,omitempty"`
 }
